@@ -225,10 +225,24 @@ Lemma classify_last v : osimR neg_rel (classify_value true v) (classify_value fa
 Proof.
   assert (Hrefl : forall x : outcome nvexpr, osimR neg_rel x x).
   { intros [x| | |]; cbn; auto. left. reflexivity. }
+  assert (Hang : forall c1 c2 w, osimR neg_rel (angle_expr c1 w) (angle_expr c2 w)).
+  { intros c1 c2 w. unfold angle_expr. destruct (path_start_ok w); [|exact Logic.I].
+    destruct (qpath_expr w) as [y| | |]; try (destruct c1, c2; exact Logic.I).
+    destruct (snd y) as [|lt [|a [|c r]]]; try exact Logic.I.
+    - left. reflexivity.
+    - repeat match goal with |- context [if ?b then _ else _] => destruct b end; exact Logic.I. }
+  assert (Htail : forall w, osimR neg_rel
+            (if has_angle w then classify_angle true w else
+             match parse_path_all w with Ok p => Ok (XPath p) | _ => let* _ := expr_all w in Ok (XOther w) end)
+            (if has_angle w then classify_angle false w else
+             match parse_path_all w with Ok p => Ok (XPath p) | _ => let* _ := expr_all w in Ok (XOther w) end)).
+  { intros w. destruct (has_angle w); [apply Hang|apply Hrefl]. }
   unfold classify_value. destruct v as [|t1 [|t2 [|t3 r]]]; try apply Hrefl.
-  destruct t1 as [s|s|s|k s|a b c|d l]; try apply Hrefl.
-  destruct s as [|[[] [] [] [] [] [] [] []] [|c s]]; try apply Hrefl.
-  destruct (is_num_lit t2); [|apply Hrefl]. right. exists t2. split; reflexivity.
+  - destruct t1 as [s|s|s|k s|a b c|d l]; try apply Htail.
+    destruct s as [|[[] [] [] [] [] [] [] []] [|c s]]; try apply Htail.
+    destruct (is_num_lit t2); [|apply Hrefl]. right. exists t2. split; reflexivity.
+  - destruct t1 as [s|s|s|k s|a b c|d l]; try apply Htail.
+    destruct s as [|[[] [] [] [] [] [] [] []] [|c s]]; apply Htail.
 Qed.
 
 Definition chunk_rel (pos : position) (m m' : meta) : Prop := tmeta_equiv pos m m'.
@@ -318,17 +332,19 @@ Lemma parse_path_all_no_angle ts p : parse_path_all ts = Ok p -> has_angle ts = 
 Proof. unfold parse_path_all. destruct (has_angle ts); [discriminate|reflexivity]. Qed.
 
 (** the general branch of [classify_value] *)
-Definition classify_tail (v : toks) : outcome nvexpr :=
-  if has_angle v then OutOfDomain "name-value expression" else
+Definition classify_tail (last : bool) (v : toks) : outcome nvexpr :=
+  if has_angle v then classify_angle last v else
   match parse_path_all v with
   | Ok p => Ok (XPath p)
   | _ => let* _ := expr_all v in Ok (XOther v)
   end.
 
-Lemma classify_tail_nv_of v x :
-  (forall t, v <> [t]) -> classify_tail v = Ok x -> nv_of v x.
+Lemma classify_tail_nv_of last v x :
+  (forall t, v <> [t]) -> classify_tail last v = Ok x -> nv_of v x.
 Proof.
-  intros Hs. unfold classify_tail. destruct (has_angle v); [discriminate|].
+  intros Hs. unfold classify_tail. destruct (has_angle v).
+  { unfold classify_angle. intros H. apply angle_expr_ok in H. destruct H as [-> _]. apply NV_other.
+    intros t Ht. exfalso. exact (Hs t Ht). }
   destruct (parse_path_all v) as [p| | |] eqn:Ep.
   - pose proof (parse_path_all_ok v p Ep) as Epv. subst p. intros H. inversion H. apply NV_path. exact Ep.
   - intros H. apply bind_ok' in H. destruct H as [u [_ H]]. inversion H. apply NV_other.
@@ -339,7 +355,7 @@ Proof.
     intros t Ht. exfalso. exact (Hs t Ht).
 Qed.
 
-Lemma classify_tail_path v : parse_path_all v = Ok v -> classify_tail v = Ok (XPath v).
+Lemma classify_tail_path last v : parse_path_all v = Ok v -> classify_tail last v = Ok (XPath v).
 Proof.
   intros H. unfold classify_tail. rewrite (parse_path_all_no_angle v v H), H. reflexivity.
 Qed.
@@ -376,14 +392,14 @@ Proof.
   - pose proof (classify_single_nv_of t1 v) as Hs. unfold classify_single in Hs.
     destruct t1 as [s|s|s|k s|a b c|d l]; try exact Hs.
     destruct s as [|[[] [] [] [] [] [] [] []] [|c s]]; exact Hs.
-  - assert (Ht : forall x, classify_tail [t1; t2] = Ok x -> nv_of [t1; t2] x).
+  - assert (Ht : forall x, classify_tail last [t1; t2] = Ok x -> nv_of [t1; t2] x).
     { intros x. apply classify_tail_nv_of. discriminate. }
     destruct t1 as [s|s|s|k s|a b c|d l]; try exact (Ht v).
     destruct s as [|[[] [] [] [] [] [] [] []] [|c s]]; try exact (Ht v).
     destruct (is_num_lit t2) eqn:En.
     + intros H. inversion H. destruct last; [apply NV_neg|apply NV_uneg]; exact En.
     + intros H. apply bind_ok' in H. destruct H as [u [_ H]]. inversion H. apply NV_other. discriminate.
-  - assert (Ht : classify_tail (t1 :: t2 :: t3 :: r) = Ok v -> nv_of (t1 :: t2 :: t3 :: r) v).
+  - assert (Ht : classify_tail last (t1 :: t2 :: t3 :: r) = Ok v -> nv_of (t1 :: t2 :: t3 :: r) v).
     { apply classify_tail_nv_of. discriminate. }
     destruct t1 as [s|s|s|k s|a b c|d l]; try exact Ht.
     destruct s as [|[[] [] [] [] [] [] [] []] [|c s]]; exact Ht.
@@ -406,11 +422,11 @@ Proof.
     destruct t1 as [s|s|s|k s|a b c|d l]; try discriminate H;
       [|exfalso; exact (path_single_punct _ _ H)].
     rewrite Hl, H. reflexivity.
-  - pose proof (classify_tail_path _ H) as Ht.
+  - pose proof (classify_tail_path last _ H) as Ht.
     destruct t1 as [s|s|s|k s|a b c|d l]; try exact Ht.
     destruct (string_dec s "-") as [->|Hn]; [exfalso; exact (path_not_neg _ _ H)|].
     destruct s as [|[[] [] [] [] [] [] [] []] [|c s]]; try exact Ht. congruence.
-  - pose proof (classify_tail_path _ H) as Ht.
+  - pose proof (classify_tail_path last _ H) as Ht.
     destruct t1 as [s|s|s|k s|a b c|d l]; try exact Ht.
     destruct s as [|[[] [] [] [] [] [] [] []] [|c s]]; exact Ht.
 Qed.
